@@ -229,6 +229,9 @@ def make_cases(ctx, abiname, abi):
 SPS = [0x7FFF0000 + d for d in (0, 1, 4, 8, 12, 15)] + [0x7FFF0000 - 16 * 5]
 
 
+SIG_SHARED_LEAF = "block-shared-with-a-leaf-function-is-treated-as-the-non-leaf-functions"
+
+
 def check_leaf(ctx, g):
     """which functions count as 'may be a leaf' (rewriting.py, not abi.py): a function without a Call edge - whatever
     else it has: syscalls, indirect jumps, returns - may have live data below its stack pointer, so a patch that
@@ -272,6 +275,18 @@ def check_leaf(ctx, g):
     add_edge(ir.cfg, blocks[-1], add_proxy_block(m), ET.Return) if g["kind"] != "ijmp" else None
     add_function(m, "f", blocks[0], set(blocks[1:]))
     target = blocks[0]
+    funcs = None
+    if g["kind"] == "shared":
+        # a tail shared by a leaf function and one that calls (tail-merged code): the leaf reaches it with live data
+        # below its stack pointer
+        lb = add_code_block(bi, b"\x90\xeb\x00")                        # nop; jmp tail
+        target = add_code_block(bi, b"\x90\xc3")
+        add_edge(ir.cfg, lb, target, ET.Branch)
+        add_edge(ir.cfg, target, add_proxy_block(m), ET.Return)
+        m.aux_data["functionBlocks"].data[next(u for u, s_ in m.aux_data["functionNames"].data.items() if s_.name == "f")].add(target)
+        leaf_uuid = add_function(m, "leaf", lb, {target})
+        fs = {f.uuid: f for f in gtirb_functions.Function.build_functions(m)}
+        funcs = [fs[leaf_uuid]] + [f for u, f in fs.items() if u != leaf_uuid]
     if g["kind"] == "orphan":
         # code that belongs to no function, right behind a function that calls: nothing says it is not a leaf
         target = add_code_block(bi, b"\x90\xc3")
@@ -281,7 +296,7 @@ def check_leaf(ctx, g):
     def p(ictx):
         return "movl $%d, %%eax" % 0x5a5a5a
 
-    rc = RewritingContext(m, gtirb_functions.Function.build_functions(m))
+    rc = RewritingContext(m, funcs if funcs is not None else gtirb_functions.Function.build_functions(m))
     if g["kind"] == "orphan":
         # the function in front is visited first and gets a patch too
         rc.insert_at(blocks[0], 0, Patch.from_function(patch_constraints()(lambda ictx: "nop")))
@@ -296,13 +311,16 @@ def check_leaf(ctx, g):
         ctx.mismatch("the patch's prologue could not be located in %s" % (ins[:8],), g)
         return
     skipped = any(mn == "lea" and "rsp" in op and "- 0x80" in op for mn, op in ins[:first_push])
-    if g["kind"] != "call" and not skipped:
+    if g["kind"] == "shared" and not skipped:
+        ctx.violation("C16:" + SIG_SHARED_LEAF, "a block shared by a leaf function and a function that calls: the patch pushes at rsp-8 "
+                      "without stepping over the red zone first: %s" % (ins[:8],), g)
+    elif g["kind"] != "call" and not skipped:
         ctx.violation("C16:leaf:red-zone", "function without a call (%s): the patch pushes at rsp-8 without stepping over the red zone first: %s" % (g["kind"], ins[:6]), g)
 
 
 def run(ctx):
-    for k in range(ctx.budget(10, 40)):
-        check_leaf(ctx, {"leaf_case": True, "kind": ["syscall", "ijmp", "plain", "call", "orphan"][k % 5]})
+    for k in range(ctx.budget(12, 48)):
+        check_leaf(ctx, {"leaf_case": True, "kind": ["syscall", "ijmp", "plain", "call", "orphan", "shared"][k % 6]})
     abis = _abi_objs()
     pending = []
     for abiname in ABIS:
